@@ -181,6 +181,9 @@ def propagate_new_aliases(tree: ast.Module, module: str, known_locals: dict[str,
                 if changed:
                     break
 
+    _sync = {n.name for n in ast.walk(tree) if isinstance(n, ast.FunctionDef)}
+    async_names = {n.name for n in ast.walk(tree) if isinstance(n, ast.AsyncFunctionDef)} - _sync
+
     def _temps(fn, qn: str):
         # a *new* local that is bound once and read once, in the statement right after its binding (other such bindings may stand in between): the value is written where it
         # is read.  `ok = a and not b` / `if ok:`  ->  `if a and not b:`;  `lock = get_lock()` / `async with lock:`  ->  `async with get_lock():`.  The value is evaluated
@@ -218,7 +221,12 @@ def propagate_new_aliases(tree: ast.Module, module: str, known_locals: dict[str,
                     if nm is None:
                         continue
                     j = i + 1
-                    while j < len(blk) and is_temp_def(blk[j]) is not None and not any(isinstance(x, ast.Name) and x.id == nm for x in ast.walk(blk[j])):
+                    def const_binding(s2) -> bool:
+                        # `flag = False` / `result = None`: touches nothing the temporary's value depends on
+                        return isinstance(s2, ast.Assign) and len(s2.targets) == 1 and isinstance(s2.targets[0], ast.Name) and isinstance(s2.value, ast.Constant) \
+                            and not any(isinstance(x, ast.Name) and x.id == s2.targets[0].id for x in ast.walk(st.value))
+
+                    while j < len(blk) and (is_temp_def(blk[j]) is not None or const_binding(blk[j])) and not any(isinstance(x, ast.Name) and x.id == nm for x in ast.walk(blk[j])):
                         j += 1
                     if j >= len(blk):
                         continue
@@ -243,7 +251,10 @@ def propagate_new_aliases(tree: ast.Module, module: str, known_locals: dict[str,
                     if any(isinstance(x, (ast.Lambda, ast.ListComp, ast.SetComp, ast.DictComp, ast.GeneratorExp)) and any(y is use for y in ast.walk(x)) for h in header for x in ast.walk(h)):
                         continue
                     val = st.value
-                    if (header == [reader] or isinstance(reader, (ast.For, ast.AsyncFor))) and any(isinstance(x, ast.Call) for x in ast.walk(val)):
+                    awaited_coro = isinstance(val, ast.Call) and (val.func.attr if isinstance(val.func, ast.Attribute) else getattr(val.func, 'id', None)) in async_names \
+                        and any(isinstance(x, ast.Await) and x.value is use for h in header for x in ast.walk(h))
+                    # (a coroutine object that is awaited by the next statement: creating it runs nothing, so `c = f(x)` / `await c` is `await f(x)`)
+                    if not awaited_coro and (header == [reader] or isinstance(reader, (ast.For, ast.AsyncFor))) and any(isinstance(x, ast.Call) for x in ast.walk(val)):
                         continue  # the result of a call that a plain statement (or a loop) goes on to use stays a named value (what was dequeued, acquired, looked up): the rules follow it by name
                     sub = _Subst(nm, val)
                     if isinstance(reader, (ast.If,)):
@@ -432,6 +443,48 @@ def propagate_new_aliases(tree: ast.Module, module: str, known_locals: dict[str,
             return node
 
     _Quantifier().visit(tree)
+
+    class _ChildrenInPlace(ast.NodeTransformer):
+        # `for r in X.event_results.values(): for c in r.event_children: BODY` (nothing else in the outer body, no `break`) walks the same children in the same order as
+        # `for c in X.event_children: BODY`: the property is that concatenation (its body is checked by C03.1)
+        def visit_For(self, node):  # noqa: N802
+            self.generic_visit(node)
+            if node.orelse or len(node.body) != 1 or not isinstance(node.body[0], ast.For) or not isinstance(node.target, ast.Name):
+                return node
+            inner = node.body[0]
+            it = node.iter
+            if isinstance(it, ast.Call) and isinstance(it.func, ast.Name) and it.func.id in ('list', 'tuple') and len(it.args) == 1:
+                it = it.args[0]
+            if not (isinstance(it, ast.Call) and isinstance(it.func, ast.Attribute) and it.func.attr == 'values' and not it.args and isinstance(it.func.value, ast.Attribute) and it.func.value.attr == 'event_results'):
+                return node
+            if inner.orelse or not (isinstance(inner.iter, ast.Attribute) and inner.iter.attr == 'event_children' and isinstance(inner.iter.value, ast.Name) and inner.iter.value.id == node.target.id):
+                return node
+            r = node.target.id
+            if any(isinstance(x, ast.Name) and x.id == r for b in inner.body for x in ast.walk(b)):
+                return node
+
+            def has_own_break(stmts) -> bool:
+                for st in stmts:
+                    if isinstance(st, ast.Break):
+                        return True
+                    if isinstance(st, (ast.For, ast.AsyncFor, ast.While, ast.FunctionDef, ast.AsyncFunctionDef, ast.ClassDef)):
+                        continue
+                    for f in ('body', 'orelse', 'finalbody'):
+                        if has_own_break(getattr(st, f, []) or []):
+                            return True
+                    for h in getattr(st, 'handlers', []) or []:
+                        if has_own_break(h.body):
+                            return True
+                return False
+
+            if has_own_break(inner.body):
+                return node
+            new = ast.For(target=inner.target, iter=ast.Attribute(value=it.func.value.value, attr='event_children', ctx=ast.Load()), body=inner.body, orelse=[], type_comment=None)
+            log.append(f'{module}: children walked result by result read as `for {ast.unparse(inner.target)} in {ast.unparse(new.iter)}`')
+            return ast.copy_location(new, node)
+
+    if any(isinstance(n, ast.Attribute) and n.attr == 'event_children' for n in ast.walk(tree)):
+        _ChildrenInPlace().visit(tree)
     if log:
         ast.fix_missing_locations(tree)
     return log
